@@ -380,9 +380,15 @@ Definition prepare_send_entries (r : raft) (m : msg) (pr : progress) (t : N) (en
 
 (* util::is_continuous_ents *)
 Definition is_continuous_ents (m : msg) (ents : list entry) : bool :=
-  match m_entries m, ents with
-  | _ :: _, e0 :: _ => e_index (List.last (m_entries m) entry_default) + 1 =? e_index e0
-  | _, _ => true
+  match ents with
+  | e0 :: _ =>
+      (* an empty message is anchored at its index: the entries must follow it *)
+      let anchor := match m_entries m with
+                    | [] => m_index m
+                    | _ => e_index (List.last (m_entries m) entry_default)
+                    end in
+      anchor + 1 =? e_index e0
+  | [] => true
   end.
 
 (* RaftCore::try_batching: result = (msgs', pr', is_batched) *)
